@@ -333,7 +333,10 @@ def runCase (d : Db) (c : Case) (out : IO.FS.Stream) : IO Unit := do
       | some q => out.putStrLn s!"si {pn} missing {q.1}"
       | none =>
         let lk := K (d.phaseK p)
-        out.putStrLn s!"si {pn} {fx (satIndex la lk p.body)} {fx lk}"
+        -- what `calc_logk_p` evaluates: the named expressions added once more to the already combined vector
+        let adds := p.raw.adds.filterMap fun (m, c) => (d.namedRes[m.toLower]?).map fun k => (k, c)
+        let lk2 := K (combineLogK (d.phaseK p) adds)
+        out.putStrLn s!"si {pn} {fx (satIndex la lk p.body)} {fx lk} {fx lk2}"
   let ctx : GateCtx F := { tol := c.tol, minTotal := c.minTotal, mu := c.mu, massWater := c.W,
                            waterSwitch := c.waterSwitch, phIsCb := c.phIsCb }
   let b2 (b : Bool) : String := if b then "1" else "0"
